@@ -88,6 +88,10 @@ pub struct Storage<B, OC, SC, L> {
     // Position of the PDF header in the file.
     start_offset: usize,
 
+    // the typed loads in progress, of all resolvers and threads, in the order they started.
+    // the flag is set on the loads that are part of a reference cycle
+    loads: Mutex<Vec<(std::thread::ThreadId, PlainRef, bool)>>,
+
     log: L
 }
 
@@ -107,6 +111,7 @@ where
             options: ParseOptions::strict(),
             backend: Vec::from(&b"%PDF-1.7\n"[..]),
             start_offset: 0,
+            loads: Mutex::new(vec![]),
             log
         }
     }
@@ -140,6 +145,7 @@ where
             changes: HashMap::new(),
             decoder: None,
             options,
+            loads: Mutex::new(vec![]),
             log
         })
     }
@@ -296,15 +302,11 @@ pub enum ScanItem {
 
 struct StorageResolver<'a, B, OC, SC, L> {
     storage: &'a Storage<B, OC, SC, L>,
-    // objects currently being loaded, per thread (a resolver can be shared between threads)
-    // the typed loads in progress (per thread). the flag is set on the loads that are part of a reference cycle
-    chain: Mutex<Vec<(std::thread::ThreadId, PlainRef, bool)>>,
 }
 impl<'a, B, OC, SC, L> StorageResolver<'a, B, OC, SC, L> {
     pub fn new(storage: &'a Storage<B, OC, SC, L>) -> Self {
         StorageResolver {
             storage,
-            chain: Mutex::new(vec![])
         }
     }
 }
@@ -353,9 +355,10 @@ where
         
         #[cfg(feature="verif")]
         crate::verif::point(crate::verif::GET_ENTER);
+        let wait_cycle_possible;
         {
             debug!("get {key:?} as {}", std::any::type_name::<T>());
-            let mut chain = self.chain.lock().unwrap();
+            let mut chain = self.storage.loads.lock().unwrap();
             if let Some(pos) = chain.iter().position(|&(t, k, _)| (t, k) == (thread, key)) {
                 // what the loads from there on return depends on where the cycle was entered
                 // (a tolerant reader drops the optional entry that closes it): they must not be cached
@@ -364,6 +367,11 @@ where
                 }
                 bail!("Recursive reference");
             }
+            // Another thread is loading this object, and a load of this thread is awaited by another thread:
+            // waiting for the other thread's result (the cache computes a value once) could be waiting for
+            // ever, the threads may be waiting for each other. Such a load is done on our own.
+            wait_cycle_possible = chain.iter().any(|&(t, k, _)| t != thread && k == key)
+                && chain.iter().any(|&(t, k, _)| t == thread && chain.iter().any(|&(t2, k2, _)| t2 != thread && k2 == k));
             chain.push((thread, key, false));
         }
         #[cfg(feature="verif")]
@@ -371,13 +379,18 @@ where
         let _defer = Defer(|| {
             #[cfg(feature="verif")]
             crate::verif::point(crate::verif::GET_POP);
-            let mut chain = self.chain.lock().unwrap();
+            let mut chain = self.storage.loads.lock().unwrap();
             // entries of other threads may be interleaved with ours
             if let Some(pos) = chain.iter().rposition(|&(t, k, _)| (t, k) == (thread, key)) {
                 chain.remove(pos);
             }
         });
         
+        if wait_cycle_possible {
+            let p = self.resolve(key)?;
+            return Ok(RcRef::new(key, T::from_primitive(p, self)?.into()));
+        }
+
         // did this call do the load itself (as opposed to finding a cached result)?
         let computed_here = std::cell::Cell::new(false);
         // the value of a load that was part of a reference cycle: returned, but not cached
@@ -385,7 +398,7 @@ where
         let res = self.storage.cache.get_or_compute(key, || {
             computed_here.set(true);
             match self.resolve(key).and_then(|p| T::from_primitive(p, self)) {
-                Ok(obj) if self.chain.lock().unwrap().iter().any(|&(t, k, cycle)| cycle && (t, k) == (thread, key)) => {
+                Ok(obj) if self.storage.loads.lock().unwrap().iter().any(|&(t, k, cycle)| cycle && (t, k) == (thread, key)) => {
                     *in_cycle.borrow_mut() = Some(Shared::new(obj));
                     Err(Arc::new(other!("object {} is part of a reference cycle", key.id)))
                 }
